@@ -240,6 +240,9 @@ func runDBHistory(work string, idx int, p *dbProfile, in DBInput, r *rand.Rand, 
 				st, forced = forced[0], forced[1:]
 			} else {
 				st = genStep(r, p, in.Callers, last, deleted)
+				if p.Name == "C03" && r.IntN(6) == 0 {
+					st.Restart = true
+				}
 				if p.Name == "C01" && st.Caller != 0 && st.Kind != "list" && r.IntN(5) == 0 {
 					st.Overlap = true
 				}
